@@ -27,6 +27,7 @@ func (c *Ctx) varInit(rel, name string) (ast.Expr, *packages.Package) {
 	if p == nil {
 		return nil, nil
 	}
+	name = c.nowName(rel, name)
 	for _, f := range p.Syntax {
 		for _, d := range f.Decls {
 			gd, ok := d.(*ast.GenDecl)
@@ -80,6 +81,12 @@ func (c *Ctx) funcDecl(rel, recv, name string) (*ast.FuncDecl, *packages.Package
 	p := c.pkgOf(rel)
 	if p == nil {
 		return nil, nil
+	}
+	if nn, ok := c.Renamed[relKey(rel)+"|"+recv+"."+name]; ok {
+		name = nn
+	}
+	if recv != "" {
+		recv = c.nowName(rel, recv)
 	}
 	for _, f := range p.Syntax {
 		for _, d := range f.Decls {
